@@ -7,7 +7,7 @@ import sys, glob, importlib
 sys.path.insert(0, os.path.join(V, "lib")); sys.path.insert(0, os.path.join(V, "props"))
 # every props/cNN.py that defines CLAIM = dict(cat=, design=, text=, note=, technique=) is a claimed check
 # only checks the coordinator has reviewed, run on the unchanged tree and mutation-tested are registered
-ACCEPTED = ["C02", "C03", "C05", "C06", "C09", "C13", "C12", "C14", "C16", "C17", "C18", "C19", "C20"]
+ACCEPTED = ["C01", "C02", "C03", "C05", "C06", "C09", "C13", "C12", "C14", "C16", "C17", "C18", "C19", "C20"]
 CLAIMED = {}
 for f in sorted(glob.glob(os.path.join(V, "props", "c[0-9][0-9].py"))):
     mod = importlib.import_module(os.path.basename(f)[:-3])
@@ -42,7 +42,7 @@ m = {
  "version": 1,
  "setup_cmd": "./check --setup",
  "hooks": {"guard": "CMI_VERIF", "enable": "harnesses and the scratch cmake build under /verif/build/repo compile /repo/src with -DCMI_VERIF",
-           "baseline_off_cmd": "./check --baseline", "source_commits": ["c91ddc4", "fc385fc", "39e3b0d", "e1d8e8b", "8e045df"], "add_only": True},
+           "baseline_off_cmd": "./check --baseline", "source_commits": ["c91ddc4", "fc385fc", "39e3b0d", "e1d8e8b", "8e045df", "92c395a"], "add_only": True},
  "engines": [
    {"name": "coq", "path": "coq/", "serves_properties": sorted(CLAIMED), "kind_free_text": "Coq 8.16.1 development: Cxx/<id>_Defs.v executable models, Cxx/<id>_Proofs.v, Props/Properties_<id>.v statements + Print Assumptions, Extract/ extraction"},
    {"name": "check", "path": "check", "serves_properties": sorted(CLAIMED), "kind_free_text": "driver: regenerate -> full .vo build -> extraction -> C++ harness against /repo/src -> differential correspondence -> search-on-break -> evidence"},
